@@ -161,6 +161,21 @@ def unclassified_calls(repo: Repo) -> List[str]:
     return out
 
 
+def _words_walk(fold: Any) -> Optional[Tuple[str, str, bool]]:
+    """(bytes name B, step text S, element is unpack(<fmt>, B[i : i + S])[0]) for a fold over range(0, len(B), S); None when the
+    iteration is not of that shape. Names are read off the structure, not assumed."""
+    it, elt, var = fold[0], fold[1], fold[2]
+    if not (isinstance(it, ast.Call) and dotted(it.func) == 'range' and len(it.args) == 3 and norm(it.args[0]) == '0' and isinstance(it.args[1], ast.Call)
+            and dotted(it.args[1].func) == 'len' and len(it.args[1].args) == 1 and isinstance(it.args[1].args[0], ast.Name)):
+        return None
+    b, st = it.args[1].args[0].id, norm(it.args[2])
+    ok = (isinstance(elt, ast.Subscript) and norm(elt.slice) == '0' and isinstance(elt.value, ast.Call) and dotted(elt.value.func).split('.')[-1] == 'unpack'
+          and len(elt.value.args) == 2 and isinstance(elt.value.args[1], ast.Subscript) and norm(elt.value.args[1].value) == b
+          and isinstance(elt.value.args[1].slice, ast.Slice) and var is not None and norm(elt.value.args[1].slice.lower or ast.Constant(value=0)) == var
+          and norm(elt.value.args[1].slice.upper or ast.Constant(value=0)) in (f'{var} + {st}', f'{st} + {var}') and elt.value.args[1].slice.step is None)
+    return b, st, bool(ok)
+
+
 def rule_bounded(rep: Report, repo: Repo) -> None:
     rep.rule('C10.BOUNDED', 'every loop or comprehension whose trip count comes from a file field consumes file bytes on each '
              'iteration (so it ends by struct.error), follows the pool-range check, or is under the dense-tail threshold', 5)
@@ -172,7 +187,7 @@ def rule_bounded(rep: Report, repo: Repo) -> None:
               f'{R}:{seg.lineno}')
     rd = repo.func(R, 'Reader._read_decompressed_data')
     folds = comprehension_or_loop(rd)
-    ok = len(folds) == 1 and norm(folds[0][0]) == 'range(0, len(file_data), word_bytes_size)'
+    ok = len(folds) == 1 and _words_walk(folds[0]) is not None          # range(0, len(B), S) over the bytes B that were read, whatever they are called
     rep.check(ok, 'C10.BOUNDED', '_read_decompressed_data:words', 'bounded by the bytes actually read', f'{R}:{rd.lineno}')
     im = normalize_counting_whiles(expand_private_calls(repo, R, repo.func(R, 'Reader._init_memory'), 'Reader'))
     for n in ast.walk(im):
@@ -259,7 +274,8 @@ def rule_torn(rep: Report, repo: Repo) -> None:
     rd = repo.func(R, 'Reader._read_decompressed_data')
     folds = comprehension_or_loop(rd)
     elt = norm(folds[0][1]).replace(folds[0][2] or 'i', 'i') if len(folds) == 1 and (folds[0][2] or '').isidentifier() else ''
-    rep.check(elt == 'unpack(read_tag, file_data[i:i + word_bytes_size])[0]', 'C10.TORN', 'words:per-slice-unpack', elt, f'{R}:{rd.lineno}',
+    ww = _words_walk(folds[0]) if len(folds) == 1 else None
+    rep.check(ww is not None and ww[2], 'C10.TORN', 'words:per-slice-unpack', elt, f'{R}:{rd.lineno}',
               expected='each word is unpacked from its own slice, so a partial last word raises')
     no_trunc = not any(isinstance(n, ast.BinOp) and isinstance(n.op, ast.FloorDiv) and 'len(' in norm(n.left) for n in ast.walk(rd))
     rep.check(no_trunc, 'C10.TORN', 'words:no-length-truncation', 'no len(data)//size in the word reader', f'{R}:{rd.lineno}')
